@@ -18,7 +18,7 @@ class ScaleSpec(SeqSpec):
         return ""
 
     def gen(self, rng, tier, scale):
-        big = tier == "thorough"
+        big = tier == "thorough" or getattr(self, "force_big", False)
         cases = []
 
         def add(cfg):
@@ -49,6 +49,8 @@ class ScaleSpec(SeqSpec):
         if "chans-merge" in self.kinds:
             for n in [255, 256, 257, 300] + ([600] if big else []):
                 add({"kind": "chans-merge", "n": n, "per": 2})
+            for n in [0, 1, 2, 3, 4, 5, 9]:
+                add({"kind": "chans-merge-iface", "n": n})
         if "mapiter" in self.kinds:
             for st in (False, True):
                 add({"kind": "mapiter", "n": 40000, "p": 2, "buf": 4, "delay": [100, 32767, 32768], "stream": st})
